@@ -289,6 +289,8 @@ class FakeGeometry:
                     r = x
             return r
 
+        if len(xs) > 8:  # long rings (GeoBox.boundary of a non-linear box): one fresh variable per extreme
+            return BoundingBox(symx.fresh_extreme(xs, "min"), symx.fresh_extreme(ys, "min"), symx.fresh_extreme(xs, "max"), symx.fresh_extreme(ys, "max"), self.crs)
         return BoundingBox(fmin(xs), fmin(ys), fmax(xs), fmax(ys), self.crs)
 
     def to_crs(self, crs):
